@@ -23,7 +23,7 @@ CONFIG = {"quick": {"shards": 8, "timeout_s": 600, "histories": 420, "driver_bud
           "thorough": {"shards": 16, "timeout_s": 3000, "histories": 9000, "driver_budgets": [1, 2, 3, 4]}}
 REQUIRED_COUNTERS = ["returns_checked", "failures_checked", "stages_converged", "stages_exhausted", "nr_iterations_observed",
                      "failure_after_success_checked", "driver_scripts", "driver_converged", "driver_step_rejections",
-                     "runs_automatic", "runs_mode_bidirectional", "runs_mode_sequential", "runs_mode_heat"]
+                     "runs_automatic", "returned_flows_vs_tight_solution_checks", "runs_mode_bidirectional", "runs_mode_sequential", "runs_mode_heat"]
 EXHAUSTIVE = {"quick": False, "thorough": False}
 
 _TRACE = []
@@ -364,6 +364,35 @@ def run_history(case, obs):
                             obs.count("supplied_junction_finite_checks")
                             if not np.isfinite(net.res_junction.at[E.at[idx, "junction"], "p_bar"]):
                                 obs.violate("supplied_result_not_finite", "junction of in-service grid %s has no finite pressure" % idx, **desc)
+            # ---- the returned flows are as close to the solution as the run's own trace implies
+            tol_m = float(opts.get("tol_m", 1e-5))
+            if opts["mode"] == "hydraulics" and tol_m >= 1e-6 and desc["hostile"] == "none" and stages:
+                hyd = [it for end, it in stages if end["mode"] == "hydraulics"][-1]
+                em = [float(p["errors"]["mdot"]) for p in hyd]
+                q = min(0.95, em[-1] / em[-2]) if len(em) >= 2 and em[-2] > 0 and em[-1] > 0 else 0.0
+                bound = 10 * tol_m + 20 * em[-1] * q / (1 - q) + 1e-5
+                refnet = netgen.build(spec if not call["use_bad"] else bad)
+                phys = {k: v for k, v in opts.items() if k in ("friction_model", "use_numba", "mode")}
+                try:
+                    pp.pipeflow(refnet, iter=400, tol_p=1e-10, tol_m=1e-10, tol_res=1e-9, **phys)
+                    worst, where = 0.0, None
+                    for t in netgen.BRANCH_TABLES:
+                        if t in net and "res_" + t in net and len(net[t]) and t in refnet:
+                            a = net["res_" + t]["mdot_from_kg_per_s"].values.astype(float)
+                            b = refnet["res_" + t]["mdot_from_kg_per_s"].values.astype(float)
+                            d = np.nanmax(np.abs(a - b)) if len(a) and not np.all(np.isnan(a - b)) else 0.0
+                            if d > worst:
+                                worst, where = float(d), t
+                    obs.count("returned_flows_vs_tight_solution_checks")
+                    obs.maxi("max_dev_from_tight_solution_kg_per_s", worst)
+                    if worst > bound:
+                        obs.violate("returned_result_far_from_solution", "pipeflow returned (tol_m=%g, last mdot changes %s) but res_%s flows are %.3g kg/s "
+                                    "away from the tightly converged solution (bound from the trace %.3g)" % (tol_m, em[-3:], where, worst, bound),
+                                    deviation=worst, bound=bound, **desc)
+                except PipeflowNotConverged:
+                    obs.count("tight_reference_not_converged")
+                except Exception:
+                    obs.count("tight_reference_error")
             had_success = True
             if opts["mode"] in ("hydraulics", "sequential", "bidirectional"):
                 sol = np.concatenate((net._pit["node"][:, PINIT], net._pit["branch"][:, MDOTINIT]))
